@@ -7,7 +7,8 @@ From Coq Require Import Lia.
 
 Definition row2 (l : names) : bool := match l with [Some _; _] => true | _ => false end.
 Definition opt_b (p : str -> bool) (o : option str) : bool := match o with Some s => p s | None => true end.
-Definition docb (d : option str) : bool := opt_b doc_chars d.
+(* comments: whatever the writer accepts (Model.doc_writable: no line of the comment ends with CR) *)
+Definition docb (d : option str) : bool := doc_writable d.
 
 Definition field_okb (f : field) : bool :=
   row2 (f_names f)
@@ -51,7 +52,7 @@ Definition opt_list (o : option str) : list str := match o with Some d => [d] | 
 Definition e_comments (ind : nat) (doc : option str) : list eline :=
   match doc with
   | None => []
-  | Some d => map (fun l => mkEline ind s_COMMENT (split_ws l)) (split_on cLF d)
+  | Some d => map (fun l => mkEline ind s_COMMENT [l]) (split_on cLF d)
   end.
 Definition e_field (ind : nat) (f : field) : list eline :=
   mkEline ind s_FIELD (src_of (f_names f) :: opt_list (dst_of (f_names f)) ++ [f_desc f])
@@ -99,14 +100,13 @@ Qed.
 
 Lemma good_comments ind doc : docb doc = true -> good (comment_lines ind doc) (e_comments ind doc).
 Proof.
-  destruct doc as [d|]; [|intros _; apply good_nil]. cbn [docb opt_b comment_lines e_comments]. intros Hd.
-  assert (Hall : forall l, In l (split_on cLF d) -> no_lfcr l = true) by (intros l; apply doc_line_no_lfcr; exact Hd).
-  induction (split_on cLF d) as [|l L IH]; cbn [map]; [apply good_nil|].
+  destruct doc as [d|]; [|intros _; apply good_nil]. cbn [docb doc_writable comment_lines e_comments]. intros Hd.
+  assert (Hall : forall l, In l (split_on cLF d) -> nolf l = true /\ ends_cr l = false).
+  { intros l Hl. split; [eapply doc_line_nolf; exact Hl|]. rewrite forallb_forall in Hd. apply negb_true_iff. apply Hd. exact Hl. }
+  clear Hd. induction (split_on cLF d) as [|l L IH]; cbn [map]; [apply good_nil|].
   apply good_cons.
   - apply enigma_line_comment.
-  - apply no_lfcr_line_ok. rewrite !no_lfcr_app, no_lfcr_tabs. cbn [andb].
-    change (no_lfcr (cSP :: l)) with (true && no_lfcr l). cbn [andb].
-    replace (no_lfcr s_COMMENT) with true by reflexivity. cbn [andb]. apply Hall. left. reflexivity.
+  - destruct (Hall l (or_introl eq_refl)) as [Hn He]. apply comment_line_ok; assumption.
   - apply IH. intros x Hx. apply Hall. right. exact Hx.
 Qed.
 
@@ -208,13 +208,35 @@ Proof.
   rewrite <- flat_map_concat_map. apply good_flat_map. intros p Hp. apply (good_param (S ind) p (Hps p Hp)).
 Qed.
 
+(* inside the hypotheses every comment can be written: write_class is write_class_lines *)
+Lemma class_okb_docs c : class_okb c = true -> write_class c = write_class_lines c.
+Proof.
+  unfold class_okb. intros H. split_ands H. unfold write_class.
+  assert (E : class_docs_writable c = true); [|rewrite E; reflexivity].
+  unfold class_docs_writable.
+  assert (Hc : doc_writable (c_doc c) = true) by (match goal with X : docb (c_doc c) = true |- _ => exact X end).
+  assert (Hfs : forallb field_okb (c_fields c) = true) by assumption.
+  assert (Hms : forallb meth_okb (c_methods c) = true) by assumption.
+  rewrite Hc. cbn [andb]. apply andb_true_iff. split.
+  - apply forallb_forall. intros f Hf. rewrite forallb_forall in Hfs. specialize (Hfs f Hf). unfold field_okb in Hfs.
+    split_ands Hfs. match goal with X : docb (f_doc f) = true |- _ => exact X end.
+  - apply forallb_forall. intros m Hm. rewrite forallb_forall in Hms. specialize (Hms m Hm). unfold meth_okb in Hms.
+    split_ands Hms. unfold meth_docs_writable.
+    assert (Hd : doc_writable (m_doc m) = true) by (match goal with X : docb (m_doc m) = true |- _ => exact X end).
+    assert (Hps : forallb param_okb (m_params m) = true) by assumption.
+    rewrite Hd. cbn [andb].
+    apply forallb_forall. intros p Hp. rewrite forallb_forall in Hps. specialize (Hps p Hp). unfold param_okb in Hps.
+    split_ands Hps. match goal with X : docb (p_doc p) = true |- _ => exact X end.
+Qed.
+
 (* the class line: its tokens are given, the conditions on them depend on the set *)
 Lemma good_class c ind : class_okb c = true ->
   forallb tokb (short_name (negb (Nat.eqb ind 0)) (cls_key c)
                   :: opt_list (option_map (short_name (negb (Nat.eqb ind 0))) (cls_dst c))) = true ->
   write_class c ind = Ok (unres (write_class c ind)) /\ good (unres (write_class c ind)) (e_class c ind).
 Proof.
-  unfold class_okb. intros H Htoks. split_ands H. unfold write_class, e_class, e_head, e_body.
+  intros Hok Htoks. rewrite (class_okb_docs c Hok). revert Hok.
+  unfold class_okb. intros H. split_ands H. unfold write_class_lines, e_class, e_head, e_body.
   assert (Hms : forall m, In m (isort meth_wleb (c_methods c)) -> meth_okb m = true).
   { intros m Hm. apply isort_in in Hm. rewrite forallb_forall in H1. apply H1. exact Hm. }
   rewrite (map_res_ok (write_meth (S ind)) (fun m => unres (write_meth (S ind) m))).
